@@ -90,10 +90,14 @@ PROPS = {
     "C15": det("corr.C15", "DET15", "props/C15.v", "dynamic threshold with all four unset/set combinations of temp-thresh-min/max, scene mean below/inside/above the range, slow warming, preview 0-3 frames; "
                "background (all pixels), weights (checksum of float32 bit patterns), threshold and backgroundFrames compared after every frame; spec S15"),
     "C17": proc("corr.C17", "PROC", "props/C17.v", "fault-free continuous and test sinks, motion-sink refusals; compared projection: continuous and test sinks; spec S17c && S17t"),
-    "C18": {"stages": [{"harness": "WRITER", "corr": "corr.C18", "n": {"quick": 36, "thorough": 400}, "shard": 3}],
-            "theorems": "props/C19.v",
+    "C18": {"stages": [{"harness": "WRITER", "corr": "corr.C18", "n": {"quick": 36, "thorough": 400}, "shard": 3},
+                       {"harness": "WRITERLAG", "corr": "corr.C18lag", "n": {"quick": 1, "thorough": 8}, "shard": 8}],
+            "theorems": "props/C18.v",
+            "level_text": "Coq theorems on a transition system of handleConn's reader loop and the writer goroutine (every schedule) and on the CPTR byte encoder/parser - partial: real goroutine "
+                          "scheduling and the channel implementation are outside the theorem; tied by running the real code with GOMAXPROCS 1..16, random read segmentations and an strace-stalled writer.",
             "rule": "connections to the real thermal-writer handleConn/writer (driver binary): frame sizes 1-32 bytes (Coq-evaluated byte-for-byte) with 0-520 frames (more than 2 x 256 in flight), "
-                    "GOMAXPROCS in {1,2,4,16}, random read segmentations (1 byte .. several frames), truncated last frame; non-trivial = at least 2 frames; distinct by (size, count, content seed)",
+                    "GOMAXPROCS in {1,2,4,16}, random read segmentations (1 byte .. several frames), truncated last frame; lag stage: 600-800 frames of 128 KB with every write system call of the daemon "
+                    "delayed 0.7 s by strace so that the 256-deep queue fills and drains (judged by the harness' own CPTR parser: files too large for Coq); non-trivial = at least 2 frames / backlog > 10 logged; distinct by (size, count, content seed)",
             "trusted_base": TB_COMMON + ["Go channels are FIFO and close() delivers buffered items first; bufio/os file writes; file names have one-second resolution (single connection per run)"]},
     "C14": {"stages": [{"harness": "HEADER", "corr": "corr.C14h", "n": {"quick": 300, "thorough": 5000}, "shard": 40}],
             "theorems": "props/C19.v", "rule": "x", "trusted_base": TB_COMMON},
@@ -109,4 +113,6 @@ PROPS = {
             "trusted_base": TB_COMMON + ["strace 6.x inject=...:signal=KILL delivers the kill on entry of the selected system call; power-loss durability, partial write() calls and disk-full are not covered; "
                                          "distinct recordings get distinct millisecond time stamps (hypothesis wf_calls; the harness waits 2 ms between recordings)",
                                          "go-cptv's reader is the decoder: a file 'decodes' if every frame reads without error up to EOF and the count equals the header's NumFrames"]},
+    "E2E": {"stages": [{"harness": "E2E", "corr": "corr.E2E11", "n": {"quick": 8, "thorough": 200}, "shard": 1}],
+            "theorems": "props/C19.v", "rule": "dev", "trusted_base": TB_COMMON},
 }
